@@ -11,7 +11,7 @@ import (
 
 func init() {
 	register("C03", propMeta{
-		Explanation: "E-GUARD + E-PROV + E-CONST. O-1 pool selection: AddSnowflake pushes to the heap loaded from field 'snowflakes' exactly on the natType == NATUnrestricted edge (else restrictedSnowflakes); the poll-timeout branch removes from the heap chosen by the same mapping on the same NAT value (sibling agreement); matchSnowflake pops from restrictedSnowflakes exactly on the client-NAT == NATUnrestricted edge, else from snowflakes (the complement). O-2 NAT vocabulary: the NAT constants of broker, common/nat and proxy/lib are equal, and both decoders accept exactly {\"\", unknown, restricted, unrestricted}, map \"\" to unknown, and reject everything else with an error. O-3 refusal only when the eligible pool is empty: matchSnowflake returns nil only through the false edge of Len() > 0 on the selected heap, test and pop in one critical section; ClientOffers answers 'no proxies' only when matchSnowflake returned nil. O-4 load order: Less compares the clients counts of its two arguments with strict <, clients never changes while queued, Swap/Push/Pop maintain index. Every clause is necessary: e.g. swapping the heaps in one branch gives a restricted client a restricted proxy.",
+		Explanation: "E-GUARD + E-PROV + E-CONST. O-1 pool selection: AddSnowflake pushes to the heap loaded from field 'snowflakes' exactly on the natType == NATUnrestricted edge (else restrictedSnowflakes); the poll-timeout branch removes from the heap chosen by the same mapping on the same NAT value (sibling agreement); matchSnowflake pops from restrictedSnowflakes exactly on the client-NAT == NATUnrestricted edge, else from snowflakes (the complement). O-2 NAT vocabulary: the NAT constants of broker, common/nat and proxy/lib are equal, and both decoders accept exactly {\"\", unknown, restricted, unrestricted}, map \"\" to unknown, and reject everything else with an error. O-3 refusal only when the eligible pool is empty: matchSnowflake returns nil only through the false edge of Len() > 0 on the selected heap, test and pop in one critical section; ClientOffers answers 'no proxies' only when matchSnowflake returned nil. O-4 load order: Less compares the clients counts of its two arguments with strict <, clients never changes while queued, Swap/Push/Pop maintain index. Every clause is necessary: e.g. swapping the heaps in one branch gives a restricted client a restricted proxy. Added after the second seeding round: O-4 also requires that Push/Pop/Swap of SnowflakeHeap have no static caller (container/heap only); O-6 the legacy client format takes its NAT type from Header.Get(\"Snowflake-NAT-Type\") and hands it to the shared handler; O-7/C04 the deregistration obligations of C04 (a proxy leaves the pool it was put in on exactly the unclaimed edge).",
 		NotDecided:  "correctness of container/heap, fairness between simultaneous clients, the outcome of arbitrary concurrent histories beyond 'each client pops the current minimum of its eligible pool under the lock'.",
 		Assumptions: []string{"container/heap maintains the heap order given a correct heap.Interface"},
 	}, runC03)
